@@ -108,6 +108,13 @@ class FMMetrics(Metrics):  # pylint: disable=too-many-instance-attributes
             parent = parent.get_parent()
         return features
 
+    @staticmethod
+    def is_grouped(feature: Feature) -> bool:
+        """Return true if the relation that contains the feature is a feature group."""
+        return feature.parent is not None and any(
+            r.is_group() and feature in r.children for r in feature.parent.get_relations()
+        )
+
     # List of methods that returns a feature
     @metric_method
     def features(self) -> dict[str, Any]:
@@ -340,7 +347,7 @@ class FMMetrics(Metrics):  # pylint: disable=too-many-instance-attributes
         _solitary_features = [
             f.name
             for f in self._features
-            if not f.is_root() and f.parent is not None and not f.parent.is_group()
+            if not f.is_root() and f.parent is not None and not self.is_grouped(f)
         ]
         result = self.construct_result(
             name=name,
@@ -360,7 +367,7 @@ class FMMetrics(Metrics):  # pylint: disable=too-many-instance-attributes
         _grouped_features = [
             f.name
             for f in self._features
-            if not f.is_root() and f.parent is not None and f.parent.is_group()
+            if not f.is_root() and f.parent is not None and self.is_grouped(f)
         ]
         result = self.construct_result(
             name=name,
